@@ -42,6 +42,18 @@ type project struct {
 	// OptDefault: every schema object is created with AreKeysOptionalByDefault (a property is required only when it
 	// says optional: false)
 	OptDefault bool `json:"opt_default,omitempty"`
+	// OneName: every text of the project (root, types, rules) is created under this one file name (which may be
+	// empty), as a caller does that has no names for its texts
+	OneName    string `json:"one_name,omitempty"`
+	UseOneName bool   `json:"use_one_name,omitempty"`
+}
+
+// fileName is the file name an object of the project is created under.
+func (p project) fileName(own string) string {
+	if p.UseOneName {
+		return p.OneName
+	}
+	return own
 }
 
 // build creates fresh schema objects for a project and registers rules and
@@ -60,8 +72,11 @@ func exactBytes(text string) []byte {
 
 func ctorMode(name, text string) int { return (len(name)*7 + len(text)) % 4 }
 
-func newJSchemaVia(name, text string) *jschema.JSchema {
-	switch ctorMode(name, text) {
+func newJSchemaVia(name, text string) *jschema.JSchema { return newJSchemaAs(name, name, text) }
+
+// newJSchemaAs: own decides the constructor, name is the file name.
+func newJSchemaAs(own, name, text string) *jschema.JSchema {
+	switch ctorMode(own, text) {
 	case 1:
 		return jschema.New(name, exactBytes(text))
 	case 2:
@@ -72,8 +87,10 @@ func newJSchemaVia(name, text string) *jschema.JSchema {
 	return jschema.New(name, text)
 }
 
-func newEnumVia(name, text string) *enum.Enum {
-	switch ctorMode(name, text) {
+func newEnumVia(name, text string) *enum.Enum { return newEnumAs(name, name, text) }
+
+func newEnumAs(own, name, text string) *enum.Enum {
+	switch ctorMode(own, text) {
 	case 1:
 		return enum.New(name, exactBytes(text))
 	case 2:
@@ -82,8 +99,10 @@ func newEnumVia(name, text string) *enum.Enum {
 	return enum.New(name, text)
 }
 
-func newRegexVia(name, text string) *regex.RSchema {
-	switch ctorMode(name, text) {
+func newRegexVia(name, text string) *regex.RSchema { return newRegexAs(name, name, text) }
+
+func newRegexAs(own, name, text string) *regex.RSchema {
+	switch ctorMode(own, text) {
 	case 1:
 		return regex.New(name, exactBytes(text))
 	case 2:
@@ -93,22 +112,22 @@ func newRegexVia(name, text string) *regex.RSchema {
 }
 
 func (p project) build() (*jschema.JSchema, error) {
-	s := newJSchemaVia("root", p.Root)
+	s := newJSchemaAs("root", p.fileName("root"), p.Root)
 	s.AreKeysOptionalByDefault = p.OptDefault
 	for _, r := range p.Rules {
-		if err := s.AddRule(r.Name, newEnumVia(r.Name, r.Text)); err != nil {
+		if err := s.AddRule(r.Name, newEnumAs(r.Name, p.fileName(r.Name), r.Text)); err != nil {
 			return s, err
 		}
 	}
 	for _, t := range p.Types {
 		var ts schema.Schema
 		if t.Regex {
-			ts = newRegexVia(t.Name, t.Text)
+			ts = newRegexAs(t.Name, p.fileName(t.Name), t.Text)
 		} else {
-			tt := newJSchemaVia(t.Name, t.Text)
+			tt := newJSchemaAs(t.Name, p.fileName(t.Name), t.Text)
 			tt.AreKeysOptionalByDefault = p.OptDefault
 			for _, r := range p.Rules {
-				if err := tt.AddRule(r.Name, newEnumVia(r.Name, r.Text)); err != nil {
+				if err := tt.AddRule(r.Name, newEnumAs(r.Name, p.fileName(r.Name), r.Text)); err != nil {
 					return s, err
 				}
 			}
@@ -150,6 +169,9 @@ type call struct {
 	// than Text (a registered type or rule); File is the name Text was given.
 	Files map[string]string
 	File  string
+	// Candidates: the texts of a project whose files all carry one name - an error position is judged against
+	// each of them and has to be right for one
+	Candidates []string
 }
 
 type entrySet int
@@ -437,6 +459,35 @@ func runProjectEntries(p project, visit func(call)) {
 		c.Files = files
 		visit(c)
 	}
+	// the same project with every text created under ONE file name (a caller without names for its texts): errors
+	// must still point into the text they belong to. Check() only (Example() as well for every third project).
+	if len(p.Types) > 0 {
+		q := p
+		q.UseOneName, q.OneName = true, []string{"x", "", "root"}[len(p.Root)%3]
+		cands := []string{p.Root}
+		for _, t := range p.Types {
+			cands = append(cands, t.Text)
+		}
+		for _, t := range p.Rules {
+			cands = append(cands, t.Text)
+		}
+		nops := 1
+		if (len(p.Root)+len(p.Types))%3 == 0 {
+			nops = 2
+		}
+		for _, o := range ops[:nops] {
+			o := o
+			c := guarded(o.name+"(one file name)", p.Root, func() (string, error) {
+				s, err := q.build()
+				if err != nil {
+					return "", err
+				}
+				return o.f(s)
+			})
+			c.File, c.Candidates = q.OneName, cands
+			visit(c)
+		}
+	}
 }
 
 // ---- C16: judging a returned error -------------------------------------------
@@ -601,6 +652,47 @@ func judgeError(r *mon.Run, c call, cas any) {
 		// an error inside a user type is judged like any other: against the text of the file it names
 		r.Count("errors_inside_user_types_judged", 1)
 	}
+	// position judges the error's position against one text: "" = right, "-" = cannot be judged
+	position := func(text string) (clause, what string) {
+		if int(v.Index) >= len(text) {
+			return "index-outside", fmt.Sprintf("%s: error index %d lies outside the %d-byte text %q", c.Entry, v.Index, len(text), mon.Trunc(text, 120))
+		}
+		line, col, lineText, ok := refLineCol(text, int(v.Index))
+		if !ok {
+			return "-", ""
+		}
+		if int(v.Line) != line || int(v.Col) != col {
+			return "line-column", fmt.Sprintf("%s: index %d of %q reported as line %d column %d; it is line %d column %d", c.Entry, v.Index, mon.Trunc(text, 120), v.Line, v.Col, line, col)
+		}
+		quoted := strings.TrimLeft(lineText, " \t\r\n")
+		if len(quoted) > 100 {
+			quoted = quoted[:100]
+		}
+		if !strings.Contains(v.Rendered, quoted) {
+			return "render-line", fmt.Sprintf("%s: rendered error %q does not quote the source line %q", c.Entry, mon.Trunc(v.Rendered, 200), mon.Trunc(quoted, 100))
+		}
+		return "", ""
+	}
+	if len(c.Candidates) > 0 {
+		// every text carries the same file name: the position has to be right for one of them
+		if v.Filename != c.File {
+			r.Count("errors_pointing_into_an_unknown_file_position_not_judged", 1)
+			return
+		}
+		r.Count("positioned_errors_judged_(one_file_name)", 1)
+		firstClause, firstWhat := "", ""
+		for _, text := range c.Candidates {
+			clause, what := position(text)
+			if clause == "" || clause == "-" {
+				return
+			}
+			if firstClause == "" {
+				firstClause, firstWhat = clause, what
+			}
+		}
+		r.Violate(firstClause, key(fmt.Sprintf("code %d", v.Code)), firstWhat+fmt.Sprintf(" (all %d texts of the project carry the file name %q; the position fits none of them)", len(c.Candidates), c.File), cas)
+		return
+	}
 	text := c.Text
 	if v.Filename != c.File {
 		other, ok := c.Files[v.Filename]
@@ -611,24 +703,11 @@ func judgeError(r *mon.Run, c call, cas any) {
 		text = other
 	}
 	r.Count("positioned_errors_judged", 1)
-	if int(v.Index) >= len(text) {
-		r.Violate("index-outside", key(fmt.Sprintf("code %d", v.Code)), fmt.Sprintf("%s: error index %d lies outside the %d-byte text %q", c.Entry, v.Index, len(text), mon.Trunc(text, 120)), cas)
-		return
-	}
-	line, col, lineText, ok := refLineCol(text, int(v.Index))
-	if !ok {
+	switch clause, what := position(text); clause {
+	case "":
+	case "-":
 		r.Count("mixed_newline_conventions_line_col_not_judged", 1)
-		return
-	}
-	if int(v.Line) != line || int(v.Col) != col {
-		r.Violate("line-column", key(fmt.Sprintf("code %d", v.Code)), fmt.Sprintf("%s: index %d of %q reported as line %d column %d; it is line %d column %d", c.Entry, v.Index, mon.Trunc(text, 120), v.Line, v.Col, line, col), cas)
-		return
-	}
-	quoted := strings.TrimLeft(lineText, " \t\r\n")
-	if len(quoted) > 100 {
-		quoted = quoted[:100]
-	}
-	if !strings.Contains(v.Rendered, quoted) {
-		r.Violate("render-line", key(fmt.Sprintf("code %d", v.Code)), fmt.Sprintf("%s: rendered error %q does not quote the source line %q", c.Entry, mon.Trunc(v.Rendered, 200), mon.Trunc(quoted, 100)), cas)
+	default:
+		r.Violate(clause, key(fmt.Sprintf("code %d", v.Code)), what, cas)
 	}
 }
